@@ -214,5 +214,9 @@ def frame_bounded(V, fn):
                 same = all(vals.a[ix] is snap.a[ix] or T.seq(vals.a[ix], snap.a[ix]) is True for ix in __import__('numpy').ndindex(*vals.a.shape)) \
                     and vals.a.shape == snap.a.shape
                 out.prove('signal-%s-values-unchanged' % name, same)
+            # the signal is only READ: its cached derived series are those of a fresh object too (an analysis function that
+            # edits a cached series in place, or leaves a private memo behind, corrupts the next analysis of the same object)
+            if out.raised is None and sig.cls.name == 'AccSignal':
+                CS.check_fresh_equivalence(V, out, sig, ['velocity', 'displacement'], tag='signal-%s/' % name)
         if n_out > 40:
             break
